@@ -4,6 +4,7 @@ import XsdataModel.Proofs.C08Writer
 import XsdataModel.Proofs.C08Bridge
 import XsdataModel.Proofs.C08Sources
 import XsdataModel.Proofs.C08LxmlText
+import XsdataModel.Proofs.C08UnionAttrs
 import XsdataModel.Proofs.C11Pipeline
 import XsdataModel.Backends.Serializers
 
@@ -163,6 +164,33 @@ infoset. -/
 theorem lxml_reads_infoset (doc : List CNode) :
     readsList doc = specList doc ∧ readsList (dropComments doc) = specList (dropComments doc) :=
   ⟨readsList_spec doc, readsList_spec (dropComments doc)⟩
+
+/-! ## handlers: the events a union node records -/
+
+/-- **union_records_document_attrs**: under the lxml handler — whose `attrs` argument is a live view
+of the libxml2 node, emptied by `element.clear()` when the element has ended — the start events
+`UnionNode.child` records for the nested elements of a union-typed element carry the attributes
+written in the document, for every nesting and whatever has been cleared in the meantime: the event
+holds a copy taken when it arrives.  (That is what the native handler's detached dicts give too.) -/
+theorem union_records_document_attrs (s0 : AStore) (toks : List UTok) (h : noReuse toks = true) :
+    unionRecord s0 toks = unionSpec s0 toks :=
+  unionRecord_spec s0 toks s0 h (fun _ _ => rfl)
+
+/-- `<shape><start x="1"><label/></start><stop x="3"/></shape>`: nodes 1, 2, 3 -/
+def unionWitness : List UTok :=
+  [.start 1 "start".toList, .start 2 "label".toList, .end 2 "label".toList, .end 1 "start".toList,
+   .start 3 "stop".toList, .end 3 "stop".toList]
+
+def unionStore : AStore := [(1, [("x".toList, "1".toList)]), (2, []), (3, [("x".toList, "3".toList)])]
+
+example : noReuse unionWitness = true := by decide
+
+/-- a recorder that keeps the view instead of a copy loses every attribute: when the events are
+replayed all nested elements have been cleared -/
+example : unionRecordLive unionStore unionWitness ≠ unionSpec unionStore unionWitness
+    ∧ unionRecordLive unionStore unionWitness
+      = [.start "start".toList [], .start "label".toList [], .end "label".toList, .end "start".toList,
+         .start "stop".toList [], .end "stop".toList] := by decide
 
 /-! ## writers: indentation -/
 
